@@ -207,7 +207,11 @@ def _repeat_value(d, val):
     if d.get('matrix_type') != 'sparse':
         raise Skip()
     if isinstance(val, int):
-        # integers only make sense in a document of integers
+        # integers only make sense in a document of integers (and only
+        # where the values fit 64-bit integers: rewriting 1e300 as a
+        # 301-digit integer would leave the domain of the format's readers)
+        if any(abs(v) >= 2 ** 62 for _, _, v in d['data']):
+            raise Skip()
         d['data'] = [[i, j, int(v)] for i, j, v in d['data']]
         d['matrix_element_type'] = 'int'
     d['data'] += [[0, 0, val], [0, 0, val]]
